@@ -295,6 +295,12 @@ PURE_PREFIXES = ("impl_is_", "impl_get_total_memory", "impl_get_memory_location"
 ABORT_FUNCS = {"abort", "std::abort", "exit", "std::exit", "std::terminate", "__assert_fail", "std::__throw_bad_function_call"}
 
 
+FUNCTORS = {"plus": "+", "minus": "-", "multiplies": "*", "divides": "/", "modulus": "%", "bit_and": "&", "bit_or": "|", "bit_xor": "^",
+            "equal_to": "==", "not_equal_to": "!=", "less": "<", "greater": ">", "less_equal": "<=", "greater_equal": ">="}
+import re as _re
+FUNCTOR_RE = _re.compile(r"^std::(%s)<.*>::operator\(\)$" % "|".join(FUNCTORS))
+
+
 class Engine:
     def __init__(self, db, inline_filter=None, max_depth=MAX_DEPTH, max_paths=MAX_PATHS, no_inline=(), opaque_backend=True):
         self.db = db
@@ -962,6 +968,25 @@ class Engine:
             r = ("idx", self.deref(thisv), idxv)
             self.emit(st, "CALL", name, list(av), thisv, loc=loc, extra={"ret": r, "fnid": (e.get("fn") or {}).get("id"), "rt": e.get("t"), "argvals": [idxv], "native": True})
             return [(st, r)]
+        if name and name.startswith("std::array<") and short == "data" and not av and thisv is not None:
+            # address of element 0 (pointer arithmetic on it is element indexing)
+            r = self.addr(("idx", self.deref(thisv), C(0)))
+            self.emit(st, "CALL", name, [], thisv, loc=loc, extra={"ret": r, "fnid": (e.get("fn") or {}).get("id"), "rt": e.get("t"), "argvals": [], "native": True})
+            return [(st, r)]
+        fdecl = self.db.fn_by_id.get((e.get("fn") or {}).get("id")) if isinstance(e, dict) else None
+        if short == "operator=" and not (name or "").startswith("std::") and (fdecl is None or (fdecl.get("defaulted") and "body" not in fdecl)) and len(av) == 1 and thisv is not None:
+            # implicitly-defined / defaulted copy or move assignment: member-wise copy, yields the object assigned to
+            dst = self.deref(thisv)
+            src = av[0]
+            self.copy_object(st, dst, src)
+            self.emit(st, "COPY", dst, src, loc=loc, extra={"assign": True})
+            return [(st, dst)]
+        m_ = FUNCTOR_RE.match(name or "")
+        if m_ and short == "operator()" and len(av) == 2:
+            # transparent standard functors compute the plain operator on their (forwarded) operands
+            vals = [self.load(st, a) if (isinstance(a, tuple) and a and a[0] in ("var", "tmp", "p", "pobj") and (a in st.mem or a[0] in ("p", "pobj"))) else a for a in av]
+            vals = [("rd", v) if isinstance(v, tuple) and v[:1] == ("pobj",) else v for v in vals]
+            return [(st, self.binop(FUNCTORS[m_.group(1)], vals[0], vals[1]))]
         pure = any(short.startswith(p) for p in PURE_PREFIXES) or name in ("std::numeric_limits::max", "std::numeric_limits::min")
         if pure:
             r = ("call", name, tuple(av), thisv)
